@@ -1,1 +1,32 @@
+(* C07 - keep-unique reports a block iff two keys coincide. *)
 From BW Require Import SpecKeys.
+From BWP Require Import TextFacts Keys_proofs.
+
+(* No violation iff the keys are pairwise distinct. *)
+Theorem C07_no_violation_iff : forall ks, ku_scan [] ks = None <-> NoDup (map k_val ks).
+Proof.
+  intros ks. rewrite ku_scan_none. split; [intros [H _]; exact H|intros H; split; [exact H|intros k _ []]].
+Qed.
+Print Assumptions C07_no_violation_iff.
+
+(* The reported key is the first one whose value occurred before it: everything
+   before it is duplicate-free. *)
+Theorem C07_violation_is_first : forall ks k,
+  ku_scan [] ks = Some k <->
+  exists pre post, ks = pre ++ k :: post /\ In (k_val k) (map k_val pre) /\ NoDup (map k_val pre).
+Proof.
+  intros ks k. rewrite ku_scan_some. split.
+  - intros (pre & post & E & [[]|Hin] & Hd & _). exists pre, post. auto.
+  - intros (pre & post & E & Hin & Hd). exists pre, post. split; [exact E|]. split; [right; exact Hin|].
+    split; [exact Hd|intros x _ []].
+Qed.
+Print Assumptions C07_violation_is_first.
+
+Theorem C07_keys_trimmed : forall idx ls,
+  map k_val (keys_trim idx ls) = filter (fun t => match t with [] => false | _ => true end) (map trim ls).
+Proof. exact keys_trim_vals. Qed.
+Print Assumptions C07_keys_trimmed.
+
+Theorem C07_at_most_one : forall o file b ds, keep_unique o file b = Ok ds -> (length ds <= 1)%nat.
+Proof. exact keep_unique_at_most_one. Qed.
+Print Assumptions C07_at_most_one.
